@@ -6,11 +6,18 @@ package harness
 // Part A (exhaustive, every tier): the complete finite cross product
 //   8 switch settings (EnableErc20, EnableEVMHook, pair.Enabled) x bank send-enabled on/off
 //   x 2 pair kinds x routes {MsgConvertCoin, MsgConvertERC20, ERC-20 transfer as a real
-//   Ethereum transaction} x receivers {self, third party, EVERY module account of the app}
+//   Ethereum transaction} x receivers {self, third party, EVERY module account of the app,
+//   32-byte accounts: the alias of the EVM-side party (same last 20 bytes), the alias of
+//   another holder, an unrelated one - on the Cosmos side of each message}
 //   (transfers: to the erc20 module address, to a holder, to another module account, and an
-//   over-balance transfer), one operation on a prepared state per case.
-// Part B: random histories with frequent switch flips between operations.
-// Evaluated by Check/Erc20Check.v check_case_c14 (model comparison + gate monitors).
+//   over-balance transfer), one operation on a prepared state per case.  The switch setting of
+//   each prepared state is delivered by one of four routes (drawn per setting): MsgUpdateParams /
+//   legacy ParameterChangeProposal, each optionally followed by GHOST flips of all three
+//   switches to the opposite value on a branch that is thrown away.
+// Part B: random histories with frequent switch flips between operations (keeper route, legacy
+//   route, ghost flips), conversions with 32-byte accounts on the Cosmos side.
+// Evaluated by Check/Erc20Check.v check_case_c14 (model comparison + gate monitors) on the
+// COMMITTED switches (read from the stores), plus the Go-side monitors of c14_helpers.go.
 
 import (
 	"fmt"
@@ -21,43 +28,115 @@ func init() { runners["C14"] = c14Run }
 
 var c14FlipWeights = c03Weights{ConvertCoin: 18, ConvertERC20: 18, Transfer: 24, Burn: 3, BurnCoins: 2, BankSend: 3, Toggle: 10, SendEnabled: 8, Params: 14, Repair: 0.12}
 
-func c14Worlds() []*c03World {
+func c14Worlds() []*c14World {
 	units := []*big.Int{big.NewInt(1), new(big.Int).Exp(big.NewInt(10), big.NewInt(18), nil)}
-	var ws []*c03World
+	var ws []*c14World
 	for i, u := range units {
 		w := c03NewWorld(i, 3, 1, 1, u)
 		w.c03Prelude(u)
-		ws = append(ws, w)
+		ws = append(ws, c14NewWorld(w, u))
 	}
 	return ws
 }
 
+// c14GenOp draws the next operation of a random history: the erc20 generator of c03 over the base parties, then
+//   - the Cosmos-side party of a conversion between holders becomes a 32-byte account in a third of the draws
+//     (mostly the alias of the EVM-side party);
+//   - 40 % of the parameter updates go through the legacy ParameterChangeProposal route;
+//   - one step in ten is a ghost flip of a switch (mostly to the opposite of the committed value).
+func (w *c14World) c14GenOp(e *Env, parties []int, cur c03Obs) c14Op {
+	base, _ := w.split(parties)
+	pos := map[int]int{}
+	for i, p := range parties {
+		pos[p] = i
+	}
+	if e.Chance(0.10) {
+		pair := e.Pick(len(w.Pairs))
+		switch e.Pick(4) {
+		case 0, 1:
+			o := c14Op{Kind: "params", B1: !cur.Mod, B2: !cur.Hook, Ghost: true}
+			if e.Chance(0.3) {
+				o.B1, o.B2 = e.Chance(0.5), e.Chance(0.5)
+			}
+			if e.Chance(0.2) {
+				o.Route = "legacy"
+			}
+			return o
+		case 2:
+			return c14Op{Kind: "toggle", Pair: pair, Ghost: true}
+		default:
+			return c14Op{Kind: "send_enabled", Pair: pair, B1: !cur.Pairs[pair].SendOK, Ghost: true}
+		}
+	}
+	o := c14Of(w.c03GenOp(e, c14FlipWeights, base, cur))
+	longFor := func(evmSide int) int {
+		r := e.Pick(100)
+		switch {
+		case r < 55:
+			return w.longIdx(evmSide) // the alias of the EVM-side party: same last 20 bytes, another account
+		case r < 80:
+			return w.longIdx((evmSide + 1 + e.Pick(w.NHold-1)) % w.NHold)
+		default:
+			return w.longIdx(w.NHold) // unrelated
+		}
+	}
+	switch o.Kind {
+	case "params":
+		if e.Chance(0.4) {
+			o.Route = "legacy"
+		}
+	case "convert_erc20":
+		if o.To < w.NHold && e.Chance(0.35) {
+			o.To = longFor(o.From)
+		}
+	case "convert_coin":
+		if o.To < w.NHold && e.Chance(0.35) {
+			o.From = longFor(o.To)
+			if p, ok := pos[o.From]; ok {
+				o.Amt = c03Amount(e, cur.Pairs[o.Pair].CBal[p]).String()
+			}
+		}
+	}
+	return o
+}
+
+func c14Nontrivial(e *Env, sig string) {
+	for i := 0; i < len(sig); i++ {
+		if sig[i] == 'C' {
+			e.Stats.Nontrivial(sig)
+			return
+		}
+	}
+}
+
 func c14Run(e *Env) {
-	e.Stats.Rule = "part A, EXHAUSTIVE in every tier: the complete cross product {EnableErc20} x {EnableEVMHook} x {pair.Enabled} x {bank send-enabled of the denomination} (16 settings) x {module-owned pair, external pair} x {MsgConvertCoin, MsgConvertERC20 to each receiver in {self, third party, every one of the application's module accounts}; ERC-20 transfer (real signed Ethereum tx, hooks run) to the erc20 module address, to a holder, to another module account, and above balance}; each case = one operation on the prepared state (state prepared once per setting, CacheContext per case), projection of both pairs over all holders and all module accounts before and after | part B: random histories (20-30 operations) with switch flips (params, toggle, send-enabled) in about a third of the steps, same projection after every operation; non-trivial = case containing a conversion attempt; distinct by hash of (setting, operation, result class)"
+	e.Stats.Rule = "part A, EXHAUSTIVE in every tier: the complete cross product {EnableErc20} x {EnableEVMHook} x {pair.Enabled} x {bank send-enabled of the denomination} (16 settings) x {module-owned pair, external pair} x {MsgConvertCoin, MsgConvertERC20 to each receiver in {self, third party, every one of the application's module accounts}, and with a 32-byte account on the Cosmos side (sender of MsgConvertCoin, receiver of MsgConvertERC20): the alias of the EVM-side party (same last 20 bytes), the alias of another holder, an unrelated one; ERC-20 transfer (real signed Ethereum tx, hooks run) to the erc20 module address, to a holder, to another module account, and above balance}; each case = one operation on the prepared state (state prepared once per setting, CacheContext per case); the setting is delivered (drawn per setting) by MsgUpdateParams or by a legacy ParameterChangeProposal, in half of the settings followed by ghost flips of all three switches to the opposite value on a discarded branch; projection of both pairs over all holders, all module accounts and the 32-byte accounts before and after, switches = the committed ones (parameter subspace and token-pair records read directly) | part B: random histories (20-30 operations) with switch flips (params by either route, toggle, send-enabled) in about a third of the steps, ghost flips in a tenth, 32-byte Cosmos-side parties in a third of the conversions between holders, same projection after every operation | Go-side monitors after every step: the switches the keeper reports are the committed ones; a ghost operation changes nothing observed; non-trivial = case containing a conversion attempt; distinct by hash of (setting, operation, result class)"
 	ws := c14Worlds()
 	hdr := c03Header
 	for _, w := range ws {
 		w.c03ReportFails(e)
-		hdr += w.headerDefs()
+		hdr += w.c14HeaderDefs()
 	}
 	e.Header(hdr)
 
 	if e.Replay != nil {
-		var kase c03Case
+		var kase c14Case
 		mustUnmarshal(e.Replay, &kase)
 		w := ws[kase.World]
-		term, _ := w.c03Execute(e, &kase, 0, nil)
+		term, _ := w.c14Exec(e, w.c14Prepare(&kase), &kase, 0, nil, nil)
 		e.AddCase("check_case_c14", term, kase)
 		return
 	}
 
 	// ---------- part A: exhaustive ----------
 	w := ws[0]
-	var all []int
+	var allBase []int
 	for i := range w.Parties {
-		all = append(all, i)
+		allBase = append(allBase, i)
 	}
+	all := w.withLong(allBase)
 	const sender, third = 1, 2 // holder 1 converts; holder 0 is the deployer of the external contract
+	aliasS, aliasT, unrelated := w.longIdx(sender), w.longIdx(third), w.longIdx(w.NHold)
 	bools := []bool{true, false}
 	nA := 0
 	if e.Tier != "search" {
@@ -66,44 +145,67 @@ func c14Run(e *Env) {
 				for _, en := range bools {
 					for _, sendok := range bools {
 						for pair := range w.Pairs {
-							setup := []c03Op{{Kind: "params", B1: mod, B2: hook}}
+							// every prepared state starts from a keeper-route update (so that a case, replayed alone,
+							// meets the same history), then the requested setting by the drawn route
+							variant := e.Pick(4)
+							route := ""
+							if variant&1 == 1 {
+								route = "legacy"
+							}
+							setup := []c14Op{{Kind: "params", B1: true, B2: true}, {Kind: "params", B1: mod, B2: hook, Route: route}}
 							if !en {
-								setup = append(setup, c03Op{Kind: "toggle", Pair: pair})
+								setup = append(setup, c14Op{Kind: "toggle", Pair: pair})
 							}
 							if !sendok {
-								setup = append(setup, c03Op{Kind: "send_enabled", Pair: pair, B1: false})
+								setup = append(setup, c14Op{Kind: "send_enabled", Pair: pair, B1: false})
 							}
-							prepared, _ := w.Ctx.CacheContext()
-							for _, o := range setup {
-								if !w.apply(prepared, o) {
-									panic("setup operation failed")
-								}
+							if variant >= 2 {
+								setup = append(setup,
+									c14Op{Kind: "params", B1: !mod, B2: !hook, Ghost: true},
+									c14Op{Kind: "toggle", Pair: pair, Ghost: true},
+									c14Op{Kind: "send_enabled", Pair: pair, B1: !sendok, Ghost: true})
 							}
-							pre := w.observe(prepared, all)
-							if pre.Mod != mod || pre.Hook != hook || pre.Pairs[pair].Enabled != en || pre.Pairs[pair].SendOK != sendok {
-								panic("prepared state does not have the requested switches")
+							e.Stats.Count(fmt.Sprintf("setting-delivered:route=%s,ghost-flips-after=%v", map[string]string{"": "MsgUpdateParams", "legacy": "ParameterChangeProposal"}[route], variant >= 2))
+							skel := c14Case{World: 0, Parties: all, Setup: setup}
+							prepared := w.c14Prepare(&skel)
+							pre, reported, stored := w.c14Observe(prepared, all)
+							if reported.String() != stored.String() {
+								e.Stats.ImplFailures = append(e.Stats.ImplFailures, ImplFailure{Case: e.nCases, Step: -1, Monitor: "keeper-reports-switches-other-than-the-committed-ones",
+									Detail: fmt.Sprintf("after the setup of the case the erc20 keeper reports %s; the last committed setting (parameter subspace, token-pair records) is %s", reported, stored)})
 							}
-							var ops []c03Op
+							if stored.Mod != mod || stored.Hook != hook || stored.Pair[pair] != en || pre.Pairs[pair].SendOK != sendok {
+								e.Stats.ImplFailures = append(e.Stats.ImplFailures, ImplFailure{Case: e.nCases, Step: -1, Monitor: "switch-flip-not-committed",
+									Detail: fmt.Sprintf("requested EnableErc20=%v EnableEVMHook=%v pair.Enabled=%v send-enabled=%v; committed: %s send-enabled=%v", mod, hook, en, sendok, stored, pre.Pairs[pair].SendOK)})
+							}
+							var ops []c14Op
 							for _, kind := range []string{"convert_coin", "convert_erc20"} {
 								amt := "7"
 								if kind == "convert_erc20" {
 									amt = "5"
 								}
-								ops = append(ops, c03Op{Kind: kind, Pair: pair, From: sender, To: sender, Amt: amt})
-								ops = append(ops, c03Op{Kind: kind, Pair: pair, From: sender, To: third, Amt: amt})
+								ops = append(ops, c14Op{Kind: kind, Pair: pair, From: sender, To: sender, Amt: amt})
+								ops = append(ops, c14Op{Kind: kind, Pair: pair, From: sender, To: third, Amt: amt})
 								for i := w.ModIdx; i < w.ZeroIdx; i++ {
-									ops = append(ops, c03Op{Kind: kind, Pair: pair, From: sender, To: i, Amt: amt})
+									ops = append(ops, c14Op{Kind: kind, Pair: pair, From: sender, To: i, Amt: amt})
 								}
 							}
 							ops = append(ops,
-								c03Op{Kind: "transfer", Pair: pair, From: sender, To: w.ModIdx, Amt: "9"},
-								c03Op{Kind: "transfer", Pair: pair, From: sender, To: third, Amt: "4"},
-								c03Op{Kind: "transfer", Pair: pair, From: sender, To: w.ModIdx + 1, Amt: "3"},
-								c03Op{Kind: "transfer", Pair: pair, From: sender, To: w.ModIdx, Amt: new(big.Int).Add(pre.Pairs[pair].TBal[sender], big.NewInt(1)).String()},
+								// 32-byte accounts on the Cosmos side
+								c14Op{Kind: "convert_erc20", Pair: pair, From: sender, To: aliasS, Amt: "5"},
+								c14Op{Kind: "convert_erc20", Pair: pair, From: sender, To: aliasT, Amt: "5"},
+								c14Op{Kind: "convert_erc20", Pair: pair, From: sender, To: unrelated, Amt: "5"},
+								c14Op{Kind: "convert_coin", Pair: pair, From: aliasS, To: sender, Amt: "7"},
+								c14Op{Kind: "convert_coin", Pair: pair, From: aliasS, To: third, Amt: "7"},
+								c14Op{Kind: "convert_coin", Pair: pair, From: aliasT, To: sender, Amt: "7"},
+								c14Op{Kind: "convert_coin", Pair: pair, From: unrelated, To: sender, Amt: "7"},
+								c14Op{Kind: "transfer", Pair: pair, From: sender, To: w.ModIdx, Amt: "9"},
+								c14Op{Kind: "transfer", Pair: pair, From: sender, To: third, Amt: "4"},
+								c14Op{Kind: "transfer", Pair: pair, From: sender, To: w.ModIdx + 1, Amt: "3"},
+								c14Op{Kind: "transfer", Pair: pair, From: sender, To: w.ModIdx, Amt: new(big.Int).Add(pre.Pairs[pair].TBal[sender], big.NewInt(1)).String()},
 							)
 							for _, o := range ops {
-								kase := c03Case{World: 0, Parties: all, Setup: setup, Ops: []c03Op{o}}
-								term, sig := w.c03ExecuteOn(e, prepared, &kase, 0, nil, &pre)
+								kase := c14Case{World: 0, Parties: all, Setup: setup, Ops: []c14Op{o}}
+								term, sig := w.c14Exec(e, prepared, &kase, 0, nil, &pre)
 								e.AddCase("check_case_c14", term, kase)
 								e.Stats.Nontrivial(fmt.Sprintf("A/%v/%v/%v/%v/%s", mod, hook, en, sendok, sig))
 								e.Stats.Count(fmt.Sprintf("exhaustive:mod=%v,hook=%v,pair=%v", mod, hook, en))
@@ -118,7 +220,7 @@ func c14Run(e *Env) {
 			}
 		}
 	}
-	e.Stats.Notes = append(e.Stats.Notes, fmt.Sprintf("part A enumerated %d cases exhaustively (%d module accounts as receivers)", nA, w.ZeroIdx-w.ModIdx))
+	e.Stats.Notes = append(e.Stats.Notes, fmt.Sprintf("part A enumerated %d cases exhaustively (%d module accounts and %d 32-byte accounts as Cosmos-side parties)", nA, w.ZeroIdx-w.ModIdx, len(w.Long)))
 
 	// ---------- part B: random histories with flips ----------
 	nB := e.Scale(16, 600)
@@ -126,14 +228,15 @@ func c14Run(e *Env) {
 		nB = 120
 	}
 	for c := 0; c < nB; c++ {
-		var kase c03Case
+		var kase c14Case
 		kase.World = c % len(ws)
 		wb := ws[kase.World]
-		kase.Parties = wb.c03PickParties(e, 2)
+		kase.Parties = wb.withLong(wb.c03PickParties(e, 2))
+		kase.Setup = []c14Op{{Kind: "params", B1: true, B2: true}}
 		n := 20 + e.Pick(11)
-		term, sig := wb.c03Execute(e, &kase, n, func(cur c03Obs) c03Op { return wb.c03GenOp(e, c14FlipWeights, kase.Parties, cur) })
+		term, sig := wb.c14Exec(e, wb.c14Prepare(&kase), &kase, n, func(cur c03Obs) c14Op { return wb.c14GenOp(e, kase.Parties, cur) }, nil)
 		e.AddCase("check_case_c14", term, kase)
-		c03Nontrivial(e, "B/"+sig)
+		c14Nontrivial(e, "B/"+sig)
 		if c == 0 {
 			e.Stats.Sample(kase)
 		}
